@@ -857,7 +857,10 @@ theorem appendBatch_L (es : List (LogId × Bytes)) :
     have hr : (Record.append id p).WF := hes (id, p) List.mem_cons_self
     have g := appendAndApply_J fsHas h hr hfs
     have gl := appendAndApply_L fsHas hl h hr hfs
-    unfold Store.appendBatch
+    by_cases hidxD12 : id.index + 1 = U64
+    · rw [appendBatch_cons_refused_D12 _ _ _ _ _ _ _ hidxD12]
+      exact hl
+    rw [appendBatch_cons_small_D12 _ _ _ _ _ _ _ hidxD12]
     rcases hres : s.appendAndApply fsHas (.append id p) with ⟨res, s', e'⟩
     rw [hres] at g gl
     have ginv := g.inv
@@ -916,6 +919,8 @@ theorem call_L {s : Store} {fs : Fs} {w : Worker} (fsHas : Nat → Bool) (op : O
             exact appendAndApply_L fsHas hl h (r := .truncateAfter (some d.id)) hwf hfs
   | purge upto =>
     simp only [Store.call]
+    split
+    · exact same _
     split
     · exact same _
     · split
